@@ -10,11 +10,12 @@ for line in open(os.path.join(here, "hooks.txt")):
         _, src, text = line.rstrip("\n").split(" ", 2)
         p = os.path.join(repo, src)
         s = open(p).read()
+        text = text.replace(" ;; ", "\n")
         if text in s:
             continue
         if not s.endswith("\n"):
             s += "\n"
-        open(p, "w").write(s + "\n" + text.replace(" ;; ", "\n") + "\n")
+        open(p, "w").write(s + "\n" + text + "\n")
         print("hooked (raw)", src)
         continue
     line = line.split("#")[0].split()
